@@ -206,6 +206,77 @@ def _historic(job: Tuple[str, str]) -> Dict[str, Any]:
     return {"property": pid, "variant": f"historic revision {PRISTINE} shows the repaired findings", "kind": "historic", "result": "ok" if not missing and code == 1 else "FAILED", "exit": code, "fired": fired, "missing": missing}
 
 
+SEEDED_DIR = os.path.join(os.path.dirname(os.path.dirname(os.path.abspath(__file__))), "seeded")
+
+
+def apply_unified_diff(files: Dict[str, str], diff: str) -> Optional[str]:
+    """Apply a git unified diff to the in-memory `files` (rel path -> text). Returns None on success, else the reason.
+    Hunks are placed at their stated line if the context matches there, else at the unique position where it does."""
+    cur: Optional[str] = None
+    hunks: Dict[str, List[Tuple[int, List[str]]]] = {}
+    for line in diff.splitlines():
+        if line.startswith("+++ "):
+            pth = line[4:].strip()
+            cur = pth[2:] if pth.startswith("b/") else pth
+            hunks.setdefault(cur, [])
+        elif line.startswith("--- ") or line.startswith("diff ") or line.startswith("index "):
+            continue
+        elif line.startswith("@@") and cur is not None:
+            m = _re_h.match(line)
+            if not m:
+                return f"bad hunk header {line!r}"
+            hunks[cur].append((int(m.group(1)), []))
+        elif cur is not None and hunks.get(cur) and (line[:1] in (" ", "+", "-") or line == ""):
+            hunks[cur][-1][1].append(line if line else " ")
+        elif line.startswith("\\"):
+            continue
+    for rel, hs in hunks.items():
+        if rel not in files:
+            return f"{rel} not in the tree"
+        lines = files[rel].split("\n")
+        delta = 0
+        for start, body in hs:
+            old = [b[1:] for b in body if b[:1] in (" ", "-")]
+            new = [b[1:] for b in body if b[:1] in (" ", "+")]
+            at = start - 1 + delta
+            if lines[at:at + len(old)] != old:
+                cands = [i for i in range(len(lines) - len(old) + 1) if lines[i:i + len(old)] == old]
+                if len(cands) != 1:
+                    return f"hunk @{start} of {rel} does not apply ({len(cands)} candidate positions)"
+                at = cands[0]
+            lines[at:at + len(old)] = new
+            delta += len(new) - len(old)
+        files[rel] = "\n".join(lines)
+    return None
+
+
+import re as _re0
+
+_re_h = _re0.compile(r"^@@ -(\d+)(?:,\d+)? \+\d+(?:,\d+)? @@")
+
+
+def seeded_ids(only: Optional[str]) -> List[str]:
+    if not os.path.isdir(SEEDED_DIR):
+        return []
+    return [d for d in sorted(os.listdir(SEEDED_DIR)) if os.path.isfile(os.path.join(SEEDED_DIR, d, "patch.diff")) and (only is None or d.split("-")[0] == only)]
+
+
+def _seeded(job: Tuple[str, str]) -> Dict[str, Any]:
+    root, sid = job
+    pid = sid.split("-")[0]
+    t0 = time.time()
+    name = f"seeded change {sid} (confirmed: suite passes, demo fails)"
+    try:
+        files = Project.read_files(root)
+        why = apply_unified_diff(files, open(os.path.join(SEEDED_DIR, sid, "patch.diff")).read())
+        if why is not None:
+            return {"property": pid, "variant": name, "kind": "seeded", "result": "skipped", "why": why}
+        code, fired = _run(pid, Project(root, files, "overlay"))
+    except Exception as e:  # pragma: no cover
+        return {"property": pid, "variant": name, "kind": "seeded", "result": "error", "why": f"{type(e).__name__}: {e}"}
+    return {"property": pid, "variant": name, "kind": "seeded", "result": "ok" if code == 1 else "FAILED", "exit": code, "fired": fired, "wall_s": round(time.time() - t0, 2)}
+
+
 def run_all(root: str, only: Optional[str] = None, jobs: int = 16) -> List[Dict[str, Any]]:
     idxs = [i for i, v in enumerate(V) if only is None or v[0] == only]
     hist = [p for p in HISTORIC if only is None or p == only]
@@ -213,6 +284,7 @@ def run_all(root: str, only: Optional[str] = None, jobs: int = 16) -> List[Dict[
     with ProcessPoolExecutor(max_workers=max(1, min(jobs, 16))) as ex:
         out.extend(ex.map(_one, [(root, i, "") for i in idxs]))
         out.extend(ex.map(_historic, [(root, p) for p in hist]))
+        out.extend(ex.map(_seeded, [(root, sid) for sid in seeded_ids(only)]))
     return out
 
 
@@ -223,11 +295,13 @@ def summarise(res: List[Dict[str, Any]]) -> Dict[str, Any]:
     nb = sum(1 for r in res if r["kind"] == "breaking" and r["result"] != "skipped")
     np_ = sum(1 for r in res if r["kind"] == "preserving" and r["result"] != "skipped")
     nh = sum(1 for r in res if r["kind"] == "historic" and r["result"] != "skipped")
+    ns = sum(1 for r in res if r["kind"] == "seeded" and r["result"] != "skipped")
     return {
-        "summary": f"breaking {cnt('breaking', 'ok')}/{nb} fired, preserving {cnt('preserving', 'ok')}/{np_} silent, historic {cnt('historic', 'ok')}/{nh}, skipped {sum(1 for r in res if r['result'] == 'skipped')}",
+        "summary": f"breaking {cnt('breaking', 'ok')}/{nb} fired, seeded {cnt('seeded', 'ok')}/{ns} fired, preserving {cnt('preserving', 'ok')}/{np_} silent, historic {cnt('historic', 'ok')}/{nh}, skipped {sum(1 for r in res if r['result'] == 'skipped')}",
         "breaking": {"fired": cnt("breaking", "ok"), "of": nb},
         "preserving": {"silent": cnt("preserving", "ok"), "of": np_},
         "historic": {"ok": cnt("historic", "ok"), "of": nh},
+        "seeded": {"fired": cnt("seeded", "ok"), "of": ns},
         "failed": [r for r in res if r["result"] in ("FAILED", "error")],
         "skipped": [f"{r['variant']}: {r.get('why')}" for r in res if r["result"] == "skipped"],
         "variants": [{k: r[k] for k in ("variant", "kind", "result") if k in r} for r in res],
